@@ -771,7 +771,7 @@ fn run_duration(fm: &FragMovie, r: &Run, i: usize) -> u32 {
 
 /// Serialise the fragments placed at absolute position `origin`; returns bytes and the
 /// per-track expectations (offsets absolute, i.e. including `origin`).
-fn build_fragments(fm: &FragMovie, origin: u64) -> (Vec<u8>, Vec<Vec<Expect>>) {
+fn build_fragments(fm: &FragMovie, origin: u64, xf: &dyn Fn(&mut BoxT)) -> (Vec<u8>, Vec<Vec<Expect>>) {
     let mut out: Vec<u8> = Vec::new();
     let mut expect: Vec<Vec<Expect>> = fm.movie.tracks.iter().map(|_| Vec::new()).collect();
     if fm.styp {
@@ -831,11 +831,13 @@ fn build_fragments(fm: &FragMovie, origin: u64) -> (Vec<u8>, Vec<Vec<Expect>>) {
                 traf.push(enc_trun(&tr));
                 moof.push(traf);
             }
+            xf(&mut moof);
             moof
         };
         let zero: Vec<u64> = frag.runs.iter().enumerate().map(|(i, _)| pads[i] as u64).collect();
         let moof_size = make(&zero, 0).size();
-        let mdat_payload_start = moof_start + moof_size + 8;
+        let mdat_large = { let mut probe = BoxT::new(b"mdat"); xf(&mut probe); probe.large };
+        let mdat_payload_start = moof_start + moof_size + if mdat_large { 16 } else { 8 };
         let mut data_starts = Vec::new();
         let mut pos = mdat_payload_start;
         for (ri, _) in frag.runs.iter().enumerate() {
@@ -856,6 +858,7 @@ fn build_fragments(fm: &FragMovie, origin: u64) -> (Vec<u8>, Vec<Vec<Expect>>) {
             }
         }
         mdat.data(pb);
+        mdat.large = mdat_large;
         out.extend_from_slice(&serialize_one(&mdat));
         // expectations
         for (ri, r) in frag.runs.iter().enumerate() {
@@ -881,6 +884,12 @@ fn build_fragments(fm: &FragMovie, origin: u64) -> (Vec<u8>, Vec<Vec<Expect>>) {
 }
 
 pub fn build_fragmented(fm: &FragMovie) -> BuiltFrag {
+    build_fragmented_x(fm, &|_| {}, &|_| {})
+}
+
+/// `init_xf` transforms the top-level tree of the initialisation segment, `moof_xf` every
+/// movie fragment box (it is also shown an empty `mdat` probe to decide the mdat header form).
+pub fn build_fragmented_x(fm: &FragMovie, init_xf: &dyn Fn(&mut Vec<BoxT>), moof_xf: &dyn Fn(&mut BoxT)) -> BuiltFrag {
     // init segment: ftyp + moov (empty sample tables) with mvex
     let mut init_movie = fm.movie.clone();
     for t in init_movie.tracks.iter_mut() {
@@ -906,10 +915,12 @@ pub fn build_fragmented(fm: &FragMovie) -> BuiltFrag {
         }
     }
     let ftyp = enc_ftyp(&FtypF { major: fm.movie.major, minor: fm.movie.minor, brands: fm.movie.brands.clone() });
-    let init_ser = serialize(&[ftyp, moov]);
+    let mut init_top = vec![ftyp, moov];
+    init_xf(&mut init_top);
+    let init_ser = serialize(&init_top);
     let init = init_ser.bytes.clone();
-    let (frag_whole, expect_whole) = build_fragments(fm, init.len() as u64);
-    let (segment, expect_segment) = build_fragments(fm, 0);
+    let (frag_whole, expect_whole) = build_fragments(fm, init.len() as u64, moof_xf);
+    let (segment, expect_segment) = build_fragments(fm, 0, moof_xf);
     let mut whole = init_ser;
     whole.bytes.extend_from_slice(&frag_whole);
     BuiltFrag { whole, init, segment, expect_whole, expect_segment }
